@@ -73,4 +73,12 @@ def CondorcetSet.eval : CondorcetSet → Condorcet.Pairwise → List Cand
 def condorcetSetRule (s : CondorcetSet) (p : Condorcet.Profile) : List Cand :=
   s.eval (Condorcet.rankedToCondorcet p)
 
+/-- `PreConverted(RankedToCondorcetVotes(unranked_at_bottom=False), EVALUATORS[name]).evaluate(votes, n)`: the evaluator on
+    the incomplete pairwise dictionary truncated ballots leave in the converter's other mode -/
+def condorcetRuleNoBottom (ev : CondorcetEv) (p : Condorcet.Profile) (n : Nat) : Except Err (List Slot) :=
+  ev.eval (Condorcet.rankedToCondorcetNoBottom p) n
+
+def condorcetSetRuleNoBottom (s : CondorcetSet) (p : Condorcet.Profile) : List Cand :=
+  s.eval (Condorcet.rankedToCondorcetNoBottom p)
+
 end VL.C11F
